@@ -441,7 +441,28 @@ WITNESSES = [
     ('stylesheet', 'options', 'stylesheet.between', ': ', ':', 'm10', {'syntax': 'scss'}),
     ('stylesheet', 'options', 'stylesheet.after', ';', '!', 'm10!', {}),
     ('stylesheet', 'snippets', 'bd', 'border:${1:1px} ${2:solid} ${3:#000}', 'border-x:1', 'bd', {}),
+    # a FALSY value in the most specific layer is a value, not "absent": it must not give the output of the value a
+    # lower layer / a fallback would give (second value = that fallback)
+    ('markup', 'variables', 'lang', '', 'lang', 'html[lang=${lang}]', {}),
+    ('markup', 'variables', 'lang', '', 'en', 'html[lang=${lang}]', {}),
+    ('markup', 'variables', 'lang', '', 'lang', '!', {}),
+    ('markup', 'variables', 'charset', '', 'UTF-8', 'meta[charset=${charset}]', {}),
+    ('markup', 'options', 'output.indent', '', '\t', 'div>p', {}),
+    ('markup', 'options', 'output.newline', '', '\n', 'div>p', {}),
+    ('markup', 'options', 'comment.after', '', '\n<!-- /[#ID][.CLASS] -->', 'div#a', {'options': {'comment.enabled': True}}),
+    ('markup', 'options', 'bem.element', '', '__', '.b>.-e', {'options': {'bem.enabled': True}}),
+    ('markup', 'options', 'bem.modifier', '', '_', '.b_m', {'options': {'bem.enabled': True}}),
+    ('markup', 'options', 'output.inlineBreak', 0, 3, 'p>a+b+i', {}),
+    ('markup', 'options', 'output.booleanAttributes', [], ['contenteditable', 'seamless', 'async', 'autofocus', 'autoplay', 'checked', 'controls', 'defer', 'disabled', 'formnovalidate', 'hidden', 'ismap', 'loop', 'multiple', 'muted', 'novalidate', 'readonly', 'required', 'reversed', 'selected', 'typemustmatch'], 'input[disabled]', {}),
+    ('stylesheet', 'options', 'stylesheet.between', '', ': ', 'm10', {}),
+    ('stylesheet', 'options', 'stylesheet.intUnit', '', 'px', 'm10', {}),
+    ('stylesheet', 'options', 'stylesheet.floatUnit', '', 'em', 'm1.5', {}),
+    ('stylesheet', 'options', 'stylesheet.after', '', ';', 'm10', {}),
+    ('stylesheet', 'options', 'output.newline', '', '\n', 'm10+p5', {}),
+    ('stylesheet', 'options', 'stylesheet.unitAliases', {}, {'e': 'em', 'p': '%', 'x': 'ex', 'r': 'rem'}, 'm10p', {}),
+    ('stylesheet', 'options', 'stylesheet.keywords', [], ['auto', 'inherit', 'unset', 'none'], 'm:a', {}),
 ]
+LEGACY_WITNESSES = 86
 # callback options (output.field / output.text) are option values like any other: the callable that is
 # consulted must be the one the most specific defining layer holds -- the very object, not a copy of it
 # (the caller's callbacks are stateful editor objects). (type, syntax, abbreviation, extra user keys)
@@ -452,7 +473,8 @@ CALLABLE_WITNESSES = [
     ('stylesheet', None, 'm10+p${1:5}+bd', {}),
     ('stylesheet', 'sass', 'c#f+@kf', {'snippets': {'zq': 'zed:${1:1}'}}),
 ]
-FIXED_SIZE = GRID_SIZE + len(WITNESSES) + len(CALLABLE_WITNESSES)
+FIXED_SIZE = GRID_SIZE + len(WITNESSES) + len(CALLABLE_WITNESSES) + GRID_SIZE
+LEGACY_FIXED_SIZE = GRID_SIZE + LEGACY_WITNESSES
 
 
 def gen_c20_callable(ci):
@@ -520,6 +542,12 @@ def gen_c20_indexed(run_seed, index, tier=None):
         return gen_c20_grid(index)
     if index < GRID_SIZE + len(WITNESSES):
         return gen_c20_witness(index - GRID_SIZE)
-    if index < FIXED_SIZE:
+    if index < GRID_SIZE + len(WITNESSES) + len(CALLABLE_WITNESSES):
         return gen_c20_callable(index - GRID_SIZE - len(WITNESSES))
+    if index < FIXED_SIZE:
+        # the exhaustive grid once more, from a host whose sections are read-only Mapping views
+        h = gen_c20_grid(index - (FIXED_SIZE - GRID_SIZE))
+        h['world']['frozen'] = True
+        h['meta'] = {'grid-frozen': h['meta']['grid']}
+        return h
     return gen_c20(run_seed)
